@@ -28,6 +28,14 @@ def handleLine (line : String) : String :=
     match handleV rest with
     | some v => s!"{id} {prop} {v.render}"
     | none => s!"{id} {prop} BAD unparsable-case"
+  | "X" :: id :: prop :: rest =>
+    match handleX rest with
+    | some v => s!"{id} {prop} {v.render}"
+    | none => s!"{id} {prop} BAD unparsable-case"
+  | "D" :: id :: prop :: rest =>
+    match handleD prop rest with
+    | some v => s!"{id} {prop} {v.render}"
+    | none => s!"{id} {prop} BAD unparsable-case"
   | [] => ""
   | kind :: id :: _ => s!"{id} ? BAD unknown-kind {kind}"
   | [x] => s!"{x} ? BAD short-line"
